@@ -38,7 +38,7 @@ func init() {
 	reg(&Prop{ID: "C02", Level: "exploration",
 		Quick:    Tier{Cases: 160000, PerJob: 10000, Seconds: 60},
 		Thorough: Tier{Cases: 6000000, PerJob: 100000, Seconds: 1200},
-		Rule: "one case = tape-built blob (random / zero runs near multiples of max / constant / low-entropy / copied segments, 0..40*max bytes) x (min,avg,max) from a table incl. min=avg, min=max and random triples x one of {IndexFromFile with n in 1..16 under the seeded scheduler, ChunkStream with n in 1..8 over a fragmenting reader and a gated store, Chunker.Next over a fragmenting/failing reader}; oracle = independent reference chunker pinned to the casync-made testdata/chunker.index; distinct = distinct (entry point, n, sizes, scheduler trace hash); non-trivial = at least one preemption, a fragmenting reader or an injected reader error",
+		Rule:     "one case = tape-built blob (random / zero runs near multiples of max / constant / low-entropy / copied segments, 0..40*max bytes) x (min,avg,max) from a table incl. min=avg, min=max and random triples x one of {IndexFromFile with n in 1..16 under the seeded scheduler, ChunkStream with n in 1..8 over a fragmenting reader and a gated store, Chunker.Next over a fragmenting/failing reader}; oracle = independent reference chunker pinned to the casync-made testdata/chunker.index; distinct = distinct (entry point, n, sizes, scheduler trace hash); non-trivial = at least one preemption, a fragmenting reader or an injected reader error",
 		Assumptions: []string{
 			"scheduling granularity = channel operations, select, close, len(chan), Once.Do; plain field accesses between them are not interleaved (sound for data-race-free executions)",
 			"inputs are bounded by 64 KiB; chunk sizes 48..8192",
@@ -46,5 +46,17 @@ func init() {
 		},
 		Real: []string{"Chunker", "IndexFromFile", "pChunker", "ChunkStream", "ChunkStorage", "NullChunk", "Digest"},
 		Stub: []string{"input reader (fragmenting / failing)", "target store", "scheduler"},
+	})
+	reg(&Prop{ID: "C01", Level: "exploration",
+		Quick:    Tier{Cases: 40000, PerJob: 2500, Seconds: 70},
+		Thorough: Tier{Cases: 1500000, PerJob: 25000, Seconds: 1500},
+		Rule:     "one case = blob (empty / all-zero / shorter than a chunk / segment mix up to 48 chunks) x chunk sizes below and above the 4 KiB block x 0..3 seeds (edited copies, identical, empty file + empty index, duplicates, stale or truncated after indexing, the target itself) x prior target content (absent, empty, garbage, longer, shorter, older version, already correct, non-zero where the blob is zero) x N in 1..8 x invalid-seed action x {cloning filesystem emulated, no cloning}; 1/4 of cases inject store faults (k-th GetChunk fails / missing / slow), 1/6 rewrite part of a seed file at a tape-chosen I/O point during the run, 1/3 make every file-system call a scheduling point; oracle = nil => target bytes == blob, and success required when the liveness clause applies; distinct = distinct (configuration class, scheduler trace hash, clone-call counts); non-trivial = preemption or fault fired",
+		Assumptions: []string{
+			"FICLONERANGE is emulated in process with the alignment, EOF, length-0 and overlap rules of ioctl_ficlonerange(2)/generic_remap_checks; block size 4096 (tmpfs st_blksize)",
+			"scheduling granularity = channel/lock/store operations (plus file-system calls in 1/3 of the cases)",
+			"the target is a regular file on tmpfs; block devices are not simulated",
+		},
+		Real: []string{"AssembleFile", "writeChunk", "SeedSequencer", "Plan.Validate", "FileSeed", "fileSeedSegment", "selfSeed", "nullChunkSeed", "RegenerateIndex/IndexFromFile"},
+		Stub: []string{"chunk store", "FICLONERANGE (emulator)", "scheduler", "seed mutator"},
 	})
 }
